@@ -140,14 +140,23 @@ def load(repo=REPO, config="debug"):
     return _loaded[p]
 
 
+class MissingBody(KeyError):
+    """a rule looked up a function body that the tree does not have (renamed / merged / removed)"""
+
+
+class BodyDict(dict):
+    def __missing__(self, key):
+        raise MissingBody(key)
+
+
 class Facts:
     def __init__(self, raw, path, repo, config):
         self.raw = raw
         self.path = path
         self.repo = repo
         self.config = config
-        self.thir = {b["def"]: b for b in raw["thir"]}
-        self.mir = {b["def"]: b for b in raw["mir"]}
+        self.thir = BodyDict((b["def"], b) for b in raw["thir"])
+        self.mir = BodyDict((b["def"], b) for b in raw["mir"])
         self.consts = {c["def"]: c for c in raw["consts"]}
         self.adts = {a["def"]: a for a in raw["adts"]}
         from . import thirlib
